@@ -33,6 +33,9 @@ SPECIFICATION Spec
 INVARIANT XorLen
 INVARIANT XorInvolut
 INVARIANT XorIdentity
+INVARIANT XorChunkLaw
+INVARIANT XorRestartDiffers
+INVARIANT NbChunkLaw
 INVARIANT NbRoundTrip
 INVARIANT NbLen
 INVARIANT PackRound
